@@ -416,7 +416,7 @@ def _record(task):
             a["ret"] = dict(kind=kind, **(L.project_result(res) if kind == "ok" else {"v": U, "args": U, "np": U}))
             keys = live.cache_keys()
             code = "%s|%s|%s" % (w.project_description(live.concrete.raw()), w.cache_code(set(keys.values())),
-                                 "F" if live.handed is not None else "N")
+                                 live.handed_kind)
             steps.append({"a": a, "t": code})
             if kind.startswith("error:") or "?" in code:
                 break            # the spec cannot express what follows; TLC rejects this step and the triage decides
@@ -473,20 +473,27 @@ class Mutation:
 
 
 def selftest(rid):
-    """Each mutation must produce a violation on the walks of run rid (executed in this process, first 3000 walks)."""
+    """Each mutation must produce a violation on walks of run rid that contain the mutated call (executed in this process)."""
     r = _RUNS[rid]
     missed = []
-    expect = {"drop-clear-in-set_stage_variable": "SetStageVar", "cache-hit-without-deep-copy": "private:",
-              "update_component-without-invalidation": "ReplaceComp"}
+    expect = {"drop-clear-in-set_stage_variable": ("SetStageVar", "SetStageVar"), "cache-hit-without-deep-copy": ("private:", "MutateReturned"),
+              "update_component-without-invalidation": ("ReplaceComp", "ReplaceComp")}
     for which in sorted(expect):
         found = None
+        keypart, act = expect[which]
         with Mutation(which):
             runner = L.Runner()
-            for wi, steps in enumerate(r["walks"][:6000]):
-                steps = [r["edges"][i] for i in steps]
+            tried = 0
+            for wi, wlk in enumerate(r["walks"]):
+                steps = [r["edges"][i] for i in wlk]
+                if not any(s["a"]["act"] == act for s in steps):
+                    continue
+                tried += 1
                 res = runner.run_walk(r["world"], L.PLATS[wi % 2], r["init"], steps, widx=wi)
-                if res["finding"] and res["finding"]["kind"] == "violation" and expect[which] in res["finding"]["key"]:
+                if res["finding"] and res["finding"]["kind"] == "violation" and keypart in res["finding"]["key"]:
                     found = res["finding"]["key"]
+                    break
+                if tried >= 1500:
                     break
         if not found:
             missed.append(which)
@@ -649,6 +656,8 @@ def _run_check(chk, tier, thorough, runner, sd):
 
     def phase(name):
         phases.append("%s@%.0fs" % (name, time.time() - t0))
+        if os.environ.get("VERIF_C08_DEBUG"):
+            print("phase", phases[-1], flush=True)
 
     # 0. the real invalidation relation per world
     worlds = ["prefix", "dot", "stage", "loop", "plus", "paren"]
